@@ -105,7 +105,42 @@ def mc_configs(tier):
             "env": (env, w_small + ["tick", "params"])}
 
 
+def _spec_hash():
+    import hashlib
+    h = hashlib.sha256()
+    for f in sorted(glob.glob(os.path.join(SPEC_DIR, "*.tla"))):
+        h.update(open(f, "rb").read())
+    h.update(open(os.path.abspath(__file__), "rb").read())
+    return h.hexdigest()[:16]
+
+
+def _reuse(name, compute):
+    """Self-test convenience (VERIF_ICS20_REUSE=1, used by the mutant runs only): the model check of the specification and
+    the TLC-generated schedules do not depend on the code under test, so mutant runs may take them from the last run with
+    identical specification files.  Registered commands never set the variable."""
+    if os.environ.get("VERIF_ICS20_REUSE") != "1":
+        return compute()
+    import pickle
+    p = os.path.join(vk.CACHE, "ics20_reuse_%s_%s.pkl" % (name, _spec_hash()))
+    if os.path.exists(p):
+        return pickle.load(open(p, "rb"))
+    v = compute()
+    with open(p + ".tmp", "wb") as f:
+        pickle.dump(v, f)
+    os.replace(p + ".tmp", p)
+    return v
+
+
 def run_mc(tier, result, errors):
+    try:
+        if os.environ.get("VERIF_ICS20_REUSE") == "1":
+            import pickle
+            p = os.path.join(vk.CACHE, "ics20_reuse_mc_%s_%s.pkl" % (tier, _spec_hash()))
+            if os.path.exists(p):
+                result["mc"] = pickle.load(open(p, "rb"))
+                return
+    except Exception:  # noqa
+        pass
     try:
         d = vk.scratch_spec(SPEC_DIR)
         out = {}
@@ -114,7 +149,7 @@ def run_mc(tier, result, errors):
             name, (consts, witnesses) = item
             cfg = os.path.join(d, "MC_ICS20_%s.cfg" % name)
             vk.write_cfg(cfg, "Spec", consts, invariants=["Inv"], view="View")
-            r = vk.tlc_mc(d, "MC_ICS20", cfg, workers=4 if tier == "quick" else 3, timeout=900 if tier == "quick" else 5400)
+            r = vk.tlc_mc(d, "MC_ICS20", cfg, workers=4 if tier == "quick" else 3, timeout=3600 if tier == "quick" else 7200)
             seen = set(re.findall(r'<<"WITNESS", "([A-Za-z0-9-]+)">>', r["out"]))
             missing = [w for w in witnesses if w not in seen]
             if missing:
@@ -124,6 +159,10 @@ def run_mc(tier, result, errors):
         for name, r in vk.pmap(one, list(mc_configs(tier).items()), 2):
             out[name] = r
         result["mc"] = out
+        if os.environ.get("VERIF_ICS20_REUSE") == "1":
+            import pickle
+            with open(os.path.join(vk.CACHE, "ics20_reuse_mc_%s_%s.pkl" % (tier, _spec_hash())), "wb") as f:
+                pickle.dump(out, f)
         shutil.rmtree(d, ignore_errors=True)
     except Exception as e:  # noqa
         errors.append(e)
@@ -145,7 +184,7 @@ def gen_walks(tier, seed, workdir):
                       TOS={"t", "h"}, MaxHops=sz["max_hops"], MaxPk=10000, MaxEp=10000, PCHAINS=set(), SLASH=SLASH, FUND=6,
                       Depth=sz["depth"], OutDir=outdir, MACRO_PCT=55, HONEST_PCT=20, **WALK_BASES)
         vk.write_cfg(cfg, "Spec", consts)
-        vk.tlc_simulate(d, "Sched_ICS20", cfg, per, sz["depth"] + 1, seed * 31 + ix, workers=1)
+        vk.tlc_simulate(d, "Sched_ICS20", cfg, per, sz["depth"] + 1, seed * 31 + ix, workers=1, timeout=3600)
         out = []
         for f in sorted(glob.glob(os.path.join(outdir, "*.json"))):
             out.append(json.load(open(f)))
@@ -173,7 +212,7 @@ def gen_cases(tier, seed, workdir):
     consts["OutDir"] = outdir
     with open(cfg, "w") as f:
         f.write("CONSTANTS\n" + "".join("  %s = %s\n" % (k, vk.tla_val(v)) for k, v in consts.items()))
-    rc, out = vk._tlc(["-workers", "1", "-config", cfg, "DenomCases.tla"], d, 900,
+    rc, out = vk._tlc(["-workers", "1", "-config", cfg, "DenomCases.tla"], d, 3600,
                       extra_env={"JAVA_TOOL_OPTIONS": os.environ.get("JAVA_TOOL_OPTIONS", "") + " -Xss512m"})
     m = re.search(r'<<"CASES", (\d+), (\d+), (\d+), (\d+)>>', out)
     if rc != 0 or not m or not os.path.exists(os.path.join(outdir, "batches.json")):
@@ -183,6 +222,21 @@ def gen_cases(tier, seed, workdir):
         b["id"] = "case%s-%d-%d" % ("kf" if b.get("kf") else "", seed, i)
     shutil.rmtree(d, ignore_errors=True)
     return batches, outdir, dict(paths=int(m.group(1)), escrow_pairs=int(m.group(2)), bases=int(m.group(3)), batches=int(m.group(4)))
+
+
+def _reuse_cases(tier, seed, workdir):
+    """gen_cases writes the table files into the work directory: keep their content with the cached value."""
+    def compute():
+        batches, outdir, counts = gen_cases(tier, seed, workdir)
+        files = {n: open(os.path.join(outdir, n)).read() for n in ("paths.json", "escrow.json")}
+        return batches, files, counts
+    batches, files, counts = _reuse("cases_%s_%d" % (tier, seed), compute)
+    outdir = os.path.join(workdir, "cases")
+    os.makedirs(outdir, exist_ok=True)
+    for n, txt in files.items():
+        with open(os.path.join(outdir, n), "w") as f:
+            f.write(txt)
+    return batches, outdir, counts
 
 
 # ------------------------------------------------------------------------------------------------ execution
@@ -350,13 +404,13 @@ def run_family(tier, seed, binary=None):
 
     def g1():
         try:
-            gen["walks"] = gen_walks(tier, seed, workdir)
+            gen["walks"] = _reuse("walks_%s_%d" % (tier, seed), lambda: gen_walks(tier, seed, workdir))
         except Exception as e:  # noqa
             errors.append(e)
 
     def g2():
         try:
-            gen["cases"] = gen_cases(tier, seed, workdir)
+            gen["cases"] = _reuse_cases(tier, seed, workdir)
         except Exception as e:  # noqa
             errors.append(e)
     ts = [threading.Thread(target=g1), threading.Thread(target=g2)]
